@@ -266,6 +266,21 @@ func c15(r *hx.Run) {
 				fail("stored-suffixes", fmt.Sprintf("transaction %d stored suffixes %v, want exactly one operation for each of %v", w.k, got, ws))
 			}
 		}
+		// a transaction that could not be stored must not have removed anything from the unpublished store
+		if !j.failDel && len(unpub.deleted) != len(wants) {
+			fail("failed-transaction-touches-unpublished-store", fmt.Sprintf("%d unpublished-store deletions for %d stored transactions", len(unpub.deleted), len(wants)))
+		}
+		for di, d := range unpub.deleted {
+			if di < len(wants) {
+				got := append([]string{}, d...)
+				ws := append([]string{}, wants[di].suffixes...)
+				sort.Strings(got)
+				sort.Strings(ws)
+				if strings.Join(got, ",") != strings.Join(ws, ",") {
+					fail("unpublished-store-deletions", fmt.Sprintf("deletion %d removed %v, want %v", di, got, ws))
+				}
+			}
+		}
 		r.Outcome(fmt.Sprintf("stored=%d of %d", len(wants), len(j.seq)))
 		r.Sample(caseID)
 	})
